@@ -152,5 +152,8 @@ pub(crate) trait CMsgHdr {
     fn len(&self) -> usize;
 }
 
+// Large enough for every control message a receive can carry at once: timestamp (32) +
+// UDP_GRO (24) + IPV6_PKTINFO (40) + TOS/TCLASS (24) = 120 bytes. With less, the kernel sets
+// MSG_CTRUNC and drops the trailing message, which loses the ECN codepoint of GRO batches.
 #[cfg(unix)]
-pub(crate) const LEN: usize = 96;
+pub(crate) const LEN: usize = 128;
